@@ -61,7 +61,24 @@ def mkSpectrum (l : List Ch) : Except Err (List Ch) :=
   else if !baudOk s then .error .spectrum
   else .ok s
 
+/-! ### uniform grid -/
+
+/-- `utils.automatic_nch`: `int((f_max - f_min) // spacing)` (a negative count gives an empty `range`) -/
+def automaticNch (fmin fmax spacing : Int) : Nat := ((fmax - fmin) / spacing).toNat
+
+/-- `create_input_spectral_information`: `frequency = [f_min + spacing * i for i in range(1, nch + 1)]`, slot width =
+spacing, one baud rate for all; payload = position -/
+def gridChans (fmin fmax spacing baud : Int) : List Ch :=
+  (List.range (automaticNch fmin fmax spacing)).map
+    (fun (i : Nat) => { f := fmin + spacing * ((i : Int) + 1), slot := spacing, baud := baud, pay := i })
+
+/-- `create_input_spectral_information` as a whole: a negative channel count (`f_max` below `f_min`) is numpy's
+`ValueError('negative dimensions are not allowed')` from `ones(number_of_channels)` -/
+def gridSpectrum (fmin fmax spacing baud : Int) : Except Err (List Ch) :=
+  if (fmax - fmin) / spacing < 0 then .error .value else mkSpectrum (gridChans fmin fmax spacing baud)
+
 /-! ### band selection -/
+
 
 /-- `is_in_band`: `(f - slot/2 >= f_min) * (f + slot/2 <= f_max)` -/
 def inBand (b : Band) (c : Ch) : Bool :=
